@@ -91,15 +91,34 @@ func (c *Ctx) genTree() treeSpec {
 	t := treeSpec{files: map[string]string{}, old: map[string]bool{}, near: map[string]bool{}}
 	// (directories whose names merely END in a skipped name, or start with one, are ordinary directories)
 	dirs := []string{"", "a", "a/b", "vendor", "vendor/x", "node_modules/m", ".hidden", "_private", "skipme", "a/skipme", "a/.git", "deep/er/est",
-		"govendor", "a/old_node_modules", "xskipme", "skipme2/in", "vendors"}
+		"govendor", "a/old_node_modules", "xskipme", "skipme2/in", "vendors",
+		// (the template suffix inside a directory name)
+		"views.goht", "my.gohtml/x"}
 	n := 3 + c.R.Intn(8)
 	for i := 0; i < n; i++ {
 		d := dirs[c.R.Intn(len(dirs))]
 		// file names that start like the directory names the walk skips (partials, drafts) are ordinary files
 		name := fmt.Sprintf("%st%d.goht", []string{"", "", "", "_", "."}[c.R.Intn(5)], i)
+		if c.R.Intn(8) == 0 {
+			name = fmt.Sprintf("t%d.goht.goht", i) // the suffix twice
+		}
 		p := filepath.Join(d, name)
 		src := c18Templates[c.R.Intn(len(c18Templates))]
 		t.files[p] = src
+		if c.R.Intn(5) == 0 {
+			// a second template in the same directory whose name differs in case only (another file on this file system)
+			up := filepath.Join(d, strings.ToUpper(name[:1])+name[1:])
+			if strings.HasPrefix(name, "t") {
+				t.files[up] = c18Templates[c.R.Intn(len(c18Templates))]
+				switch c.R.Intn(3) {
+				case 0:
+					t.files[up+".go"] = "// up to date marker " + name + "\npackage t\n"
+				case 1:
+					t.files[up+".go"] = "// stale marker " + name + "\npackage t\n"
+					t.old[up+".go"] = true
+				}
+			}
+		}
 		if c.R.Intn(4) == 0 {
 			// an unrelated file whose name sorts between the template and its output (editor backup, dependency file, copy)
 			t.files[p+[]string{".bak", ".d", "-old", " (copy)", ".fo"}[c.R.Intn(5)]] = "unrelated neighbour\n"
